@@ -165,6 +165,11 @@ def char_attr_diffs(ec, text, attrs, with_opt, fmt, what, has_bg):
         out.append((name + (":nested-reset" if nested_reset else ""),
                     f"{what}: char {ch!r} of cue at {ec['begin']} ms: computed {name}={ev}, tags give {name}={av}"
                     + (" (switched on by an ancestor span, reset by the char's own span)" if nested_reset else "")))
+    for what_ in a.redundant:
+      if what_ == "color" and "chain-default" not in e.redundant:
+        continue      # the text resets a non-default inherited colour (possibly of an ancestor that has no tag of its own)
+      out.append((what_ + "-markup-for-default", f"{what}: char {ch!r} of cue at {ec['begin']} ms is enclosed in {what_} markup that only restates the "
+                                                    f"default ({'opaque white' if what_ == 'color' else 'transparent'})"))
     if (a.color or WHITE) != e.color:
       out.append(("color", f"{what}: char {ch!r} of cue at {ec['begin']} ms: computed color {e.color}, tags give {a.color or 'none (white)'}"))
     if has_bg and e.bg != "not-judged":
